@@ -22,9 +22,12 @@ namespace BitSerializer
 			TValue temp;
 			if constexpr (TArchive::IsLoading())
 			{
-				archive.SerializeValue(std::forward<TKey>(key), temp);
-				value.store(temp);
-				return true;
+				if (archive.SerializeValue(std::forward<TKey>(key), temp))
+				{
+					value.store(temp);
+					return true;
+				}
+				return false;
 			}
 			else
 			{
@@ -45,9 +48,12 @@ namespace BitSerializer
 			TValue temp;
 			if constexpr (TArchive::IsLoading())
 			{
-				archive.SerializeValue(temp);
-				value.store(temp);
-				return true;
+				if (archive.SerializeValue(temp))
+				{
+					value.store(temp);
+					return true;
+				}
+				return false;
 			}
 			else
 			{
